@@ -121,13 +121,20 @@ pub mod move_gen {
         }
         /// model of the legality filter for the generator/glue harnesses: an arbitrary predicate on the
         /// move; also checks that generate_moves hands the filter the right king square, checkers and pins
-        pub fn stub_is_legal(mg: &MoveGenerator, board: &Board, mv: &Move, checkers: Bitboard, pinned_pieces: Bitboard, king_square: Square) -> bool {
-            let ks = mg.king_square(board);
-            vassert!(king_square == ks, "C01: legality filter is handed a wrong king square");
-            vassert!(checkers == mg.attacks_to(board, ks), "C01: legality filter is handed wrong checkers");
-            vassert!(pinned_pieces == mg.get_pinned_pieces(board, ks), "C01: legality filter is handed wrong pinned pieces");
+        pub fn stub_is_legal(_mg: &MoveGenerator, _board: &Board, mv: &Move, checkers: Bitboard, pinned_pieces: Bitboard, king_square: Square) -> bool {
+            // expected arguments are computed once by the harness (through the real king_square / attacks_to /
+            // get_pinned_pieces) and stored; recomputing them per move made the glue harness run out of memory
+            let e = unsafe { &crate::h_movegen::MGS };
+            vassert!(king_square == e.exp_king, "C01: legality filter is handed a wrong king square");
+            vassert!(checkers == e.exp_checkers, "C01: legality filter is handed wrong checkers");
+            vassert!(pinned_pieces == e.exp_pinned, "C01: legality filter is handed wrong pinned pieces");
             crate::h_movegen::pred(mv)
         }
+        pub fn expected_filter_args(mg: &MoveGenerator, board: &Board) -> (Square, Bitboard, Bitboard) {
+            let ks = mg.king_square(board);
+            (ks, mg.attacks_to(board, ks), mg.get_pinned_pieces(board, ks))
+        }
+        pub fn stub_king_square(_mg: &MoveGenerator, _board: &Board) -> Square { unsafe { crate::h_movegen::MGS.case_king } }
         pub fn pred_check(mv: &Move) -> bool { !crate::h_movegen::pred(&Move::new(mv.to, mv.from, mv.piece_type, mv.move_type)) }
         pub fn stub_is_check(_mg: &MoveGenerator, _board: &Board, mv: &Move) -> bool { pred_check(mv) }
         pub fn q_pred(mg: &MoveGenerator, board: &Board, mv: &Move) -> bool {
